@@ -18,6 +18,7 @@ import (
 
 type SegCase struct {
 	Grid gen.GridSpec  `json:"grid"`
+	Deep int           `json:"deep,omitempty"` // deepest tile matrix id (built-in grids; synthetic grids use their last one)
 	Hot  [][2]int64    `json:"hot"` // pixel indices at the deepest level
 	Seg  [2][2]float64 `json:"seg"`
 	Q    int64         `json:"q"`
@@ -25,16 +26,26 @@ type SegCase struct {
 }
 
 var specC02Seg = report.Spec{Property: "C02", Check: "C02Seg",
-	Rule: "segment level: synthetic dyadic grid of depth 4-9 levels (non-zero origins, tile widths, both corners of origin), a window of 4x4..6x6 pixels anchored at the origin/far corner/on the root split/on a deeper split/anywhere, " +
+	Rule: "segment level: synthetic dyadic grid of depth 4-9 levels (non-zero origins, tile widths, both corners of origin) or a built-in grid (NetherlandsRDNewQuad, WebMercatorQuad, UPSArcticWGS84Quad, EuropeanETRS89_LAEAQuad) with a drawn deepest id up to pixel level 32, a window of 4x4..6x6 pixels anchored at the origin/far corner/on the root split/on a deeper split/anywhere, " +
 		"1-10 occupied pixels in the window plus 0-3 anywhere, segment endpoints on the pixel/4 (ties), pixel/3 or pixel/8 lattice of the window (60% in occupied pixels like real polygon edges, 40% free); " +
 		"subject PointIndex.SnapClosestPoints at every level 1..deepest; oracle: exact centre sequence (set and order) of the routing reference (separating-axis test with symbolic shrink of the half open pixel, order by monotone chain), plus exact float equality of the centres. " +
 		"Non-trivial: at the deepest level the segment has an exact tie with the pixel grid (endpoint on a border/corner, through a corner, along a border) or meets >= 2 occupied pixels. Distinct by case content.",
 	Assumptions: []string{"the reference decider Meets() is cross-validated against exact-rational witness enumeration in the harness self test (kernel_test.go) and on a sample of cases at run time"}}
 
+func (c SegCase) deepID() int {
+	if c.Grid.Kind == "builtin" {
+		return c.Deep
+	}
+	return c.Grid.NTM - 1
+}
+
 func genC02Seg(t *rapid.T) SegCase {
-	c := SegCase{Grid: gen.Synthetic(t)}
+	c := SegCase{Grid: gen.AnyGridWide(t)}
 	g := c.Grid.MustBuild()
-	deepest := g.LevelOf(c.Grid.NTM - 1)
+	if c.Grid.Kind == "builtin" {
+		c.Deep = rapid.IntRange(0, min(g.MaxID(), maxAddressableID(g))).Draw(t, "deepestID")
+	}
+	deepest := g.LevelOf(c.deepID())
 	size := int64(1) << deepest
 	w := rapid.Int64Range(4, 6).Draw(t, "window")
 	an, cls := gen.Anchor(t, size, w)
@@ -69,7 +80,7 @@ func genC02Seg(t *rapid.T) SegCase {
 
 func oracleC02Seg(c SegCase) (o report.Outcome) {
 	g := c.Grid.MustBuild()
-	deepestID := c.Grid.NTM - 1
+	deepestID := c.deepID()
 	deepest := g.LevelOf(deepestID)
 	a := P{X: kernel.ToFixed(c.Seg[0][0]), Y: kernel.ToFixed(c.Seg[0][1])}
 	b := P{X: kernel.ToFixed(c.Seg[1][0]), Y: kernel.ToFixed(c.Seg[1][1])}
